@@ -188,6 +188,11 @@ func KVal(r, code int64) int64 { return code*100 + r + 7 }
 
 // K is a conc child (method, function and three-level forms all end here).
 func (h *H) K(r, code int64) int64 {
+	if code >= extraBase {
+		simrt.Emit(EvK, int64(h.c.Idx), r, code<<1)
+		simrt.Emit(EvKE, int64(h.c.Idx), r, code)
+		return KVal(r, code)
+	}
 	pl := h.plan(r)
 	kind := code % 8
 	pos := code / 8
